@@ -184,7 +184,7 @@ theorem round_core_spec (prof : Profile) (tm : Mode) (d : Dec) (n : Int) (hd : D
         have : ¬ (10 : Int) ^ ((p : Int) - n).toNat < 0 := by omega
         simp only [this, if_false]
       rw [hq]
-      have hkf := specRound_fits tm a ((10 : Int) ^ ((p : Int) - n).toNat) ⟨ha0, ha1⟩ hpw
+      have hkf := specRound_fits tm a ((10 : Int) ^ ((p : Int) - n).toNat) ⟨Int.le_of_lt ha0, ha1⟩ hpw
       generalize Spec.specRound tm a ((10 : Int) ^ ((p : Int) - n).toNat) = k at hkf
       by_cases hn0 : n ≥ 0
       · simp only [hn0, if_true]
